@@ -25,7 +25,8 @@ Specials == {
   Special("bref-big", "(a)", "", 0, "\\9999", "outside"), Special("class-long", "[", "a-b", 2000, "]", "accept"),
   Special("alt-many", "a", "|a", 3000, "", "accept"), Special("quant-20000", "a{20000}", "", 0, "", "accept"),
   Special("quant-nested", "(?:(?:a{60}){60}){60}", "", 0, "", "accept"), Special("quant-range", "a{0,20000}", "", 0, "", "accept"),
-  Special("quant-huge", "a{100000000}", "", 0, "", "accept"), Special("quant-huge-range", "a{1,99999999999}", "", 0, "", "accept"),
+  \* in the grammar, but an implementation may refuse them as too large ("outside"): what it may not do is hang
+  Special("quant-huge", "a{100000000}", "", 0, "", "outside"), Special("quant-huge-range", "a{1,99999999999}", "", 0, "", "outside"),
   Special("quant-out-of-order", "a{2,1}", "", 0, "", "reject"), Special("trailing-backslash", "abc\\", "", 0, "", "reject"),
   Special("unterminated-class", "[abc", "", 0, "", "reject"), Special("lookbehind-open", "(?<=a", "", 0, "", "reject"),
   Special("star-chain", "a", "*", 2, "", "reject"), Special("lazy-chain", "a+?", "?", 1, "", "reject"),
@@ -76,7 +77,8 @@ Recs == ndJsonDeserialize(IOEnv.OBS_FILE)
 \* outcome codes: "ok" | "SyntaxError" (caught by script try/catch) | "caught:<class>" | "syntax" (eval raised JSSyntaxError)
 \*   | "jserror:<name>" | "RegExpError" (API channel: the package's own documented error) | "host:<type>" | "hang" | "skip"
 AcceptOutcome(o) == o = "ok"
-RejectOutcome(c, o) == IF c = 1 THEN o = "RegExpError" ELSE o \in {"SyntaxError", "syntax", "jserror:SyntaxError"}
+\* uncaught: any JSError at the Python boundary (its class name is recorded, not judged: DESIGN 4.4 item 8)
+RejectOutcome(c, o) == IF c = 1 THEN o = "RegExpError" ELSE o \in {"SyntaxError", "syntax", "jserror"}
 TotalOutcome(c, o) == o = "skip" \/ AcceptOutcome(o) \/ RejectOutcome(c, o)
 \* why does the engine disagree with the acceptor?  the grammar with one rule relaxed at a time
 HugeNames == {"quant-huge", "quant-huge-range"}
@@ -89,6 +91,8 @@ ConsVerdict(r) ==
                    ELSE IF c > 1 /\ o = "host:RegExpError" /\ cls # "accept" THEN "Dev_RegExpErrorHost"      \* the parser's private error type leaks out of eval
                    ELSE IF c > 1 /\ o = "host:RegExpError" THEN "!accept-rejected"
                    ELSE "!")
+        \* lexer.py: "/=" is always taken as the divide-assign token, so a literal whose pattern starts with "=" is a syntax error
+        ELSE IF c = 2 /\ cls # "reject" /\ "p" \in DOMAIN r /\ r.p # <<>> /\ r.p[1] = 61 /\ RejectOutcome(c, o) THEN "Dev_LiteralSlashAssign"
         ELSE IF cls = "accept" /\ ~AcceptOutcome(o) THEN "!accept-rejected"
         ELSE IF cls = "reject" /\ AcceptOutcome(o) THEN "!reject-accepted"
         ELSE ""
@@ -113,7 +117,10 @@ FlagVerdict(r) ==
       newer == \E k \in 1..Len(fs) : fs[k] \in {100, 118}
       dup == \E j, k \in 1..Len(fs) : j # k /\ fs[j] = fs[k]
       cls == IF newer THEN "outside" ELSE IF known /\ ~dup THEN "accept" ELSE "reject"
-      Bad(c, o) == IF o = "skip" THEN "" ELSE IF ~TotalOutcome(c, o) THEN "!"
+      Bad(c, o) == IF o = "skip" THEN ""
+                   \* a literal with a letter that is no flag: the lexer stops before it and the program goes on with an identifier
+                   ELSE IF c = 2 /\ cls = "reject" /\ ~known /\ o \in {"caught:ReferenceError", "jserror"} THEN "Dev_FlagsNotValidated"
+                   ELSE IF ~TotalOutcome(c, o) THEN "!"
                    ELSE IF cls = "accept" /\ ~AcceptOutcome(o) THEN "!accept-rejected"
                    ELSE IF cls = "reject" /\ AcceptOutcome(o) THEN "Dev_FlagsNotValidated"
                    ELSE ""
@@ -142,6 +149,8 @@ RunVerdict(r) ==
           IF r.maxstep.la <= StepLimit + 1 /\ r.maxstep.lb <= StepLimit + 1 THEN "" ELSE "Dev_SubNoStepLimit",   \* RegexVM.SubStepBound
           \* outcome: a match, null (also: step budget exhausted), or an error of the JSError family
           CASE r.out \in {"match", "null"} -> ""
+            [] r.out = "jserror" -> IF r.mode \in {"script", "script-deadline"} THEN "" ELSE "!outcome"     \* e.g. RangeError for an exhausted stack
+            [] r.out = "overflow" -> IF r.mode \in {"api", "api-deadline"} /\ r.maxstack > StackLimit THEN "" ELSE "!overflow-below-limit"
             [] r.out = "capped" -> ""                                                          \* bounded by counting: every clause above held on the observed prefix
             [] r.out = "timeout" -> IF r.mode \in {"api-deadline", "script-deadline"} THEN "" ELSE "!timeout-without-deadline"
             [] r.out = "host" /\ r.ty = "RegexStackOverflow" -> IF r.maxstack > StackLimit THEN "Dev_StackOverflowHost" ELSE "!overflow-below-limit"
